@@ -67,11 +67,39 @@ func regressionCases() []*Case {
 	return cs
 }
 
+// guardCases: minimal inputs of defects that are NOT in the pinned tree but were once missed by this check
+// (seeded defects); they pass on a correct engine and are run first.
+func guardCases() []*Case {
+	sh := func(leaf string) *Node { return &Node{Leaf: leaf, Share: 1} }
+	one := leafNode("1")
+	arr := func(k ...*Node) *Node { return &Node{Kind: "arr", Kids: k} }
+	o := &Node{Kind: "obj", Keys: []string{"a", "b"}, Kids: []*Node{leafNode("function"), one}, Share: 1}
+	f := sh("function")
+	var cs []*Case
+	for _, v := range []*Node{
+		{Kind: "obj", Keys: []string{"a", "b"}, Kids: []*Node{f, f}}, // var f=function(){}; {a:f,b:f}
+		arr(f, one, f), // [f,1,f]
+		arr(o, o),      // var o={a:function(){},b:1}; [o,o]
+		arr(arr(f), f), // [[f],f]
+		arr(sh("proxy:fn"), sh("proxy:fn")),
+	} {
+		cs = append(cs, &Case{Op: "stringify", Value: v, Replacer: "none", Indent: "absent"},
+			&Case{Op: "stringify", Value: v, Replacer: "fn:id", Indent: "1"},
+			&Case{Op: "marshal", Value: v})
+	}
+	return cs
+}
+
 func runCorpus(r *core.Run, cache *sigCache, bounds map[string]interface{}) bool {
 	w := newWorker(r, cache)
 	for i, c := range regressionCases() {
 		c.Family = fmt.Sprintf("regression/%d", i)
 		w.check(c)
+	}
+	for i, c := range guardCases() {
+		c.Family = fmt.Sprintf("guard/%d", i)
+		w.check(c)
+		r.NontrivialN(1)
 	}
 	for i, x := range exprCorpus {
 		w.e = nil // fresh runtime: some expressions patch prototypes temporarily
@@ -79,6 +107,6 @@ func runCorpus(r *core.Run, cache *sigCache, bounds map[string]interface{}) bool
 		r.NontrivialN(1)
 	}
 	w.e = nil
-	bounds["corpus"] = fmt.Sprintf("%d regression cases, %d hand-written expressions (argument coercion, abrupt completions, proxies, metadata)", len(regressionCases()), len(exprCorpus))
+	bounds["corpus"] = fmt.Sprintf("%d regression cases, %d guard cases (aliasing), %d hand-written expressions (argument coercion, abrupt completions, proxies, metadata)", len(regressionCases()), len(guardCases()), len(exprCorpus))
 	return true
 }
